@@ -380,6 +380,9 @@ def contains_overlapping_fn(sa, sb):
         ok = la.contains(lb, match_strand=False) is want and la.contains(lb, match_strand=True) is (want and sa is sb)
         res = la.intersection(lb, match_strand=False)
         ok = ok and {q for a, b in blocks_of(res) for q in range(a, b)} == (pa & pb)
+        for op, want_pos in ((lambda: la.minus(lb, match_strand=False), pa - pb), (lambda: lb.minus(la, match_strand=False), pb - pa),
+                             (lambda: la.union(lb) if sa is sb else la, (pa | pb) if sa is sb else pa)):
+            ok = ok and {q for a, b in blocks_of(op()) for q in range(a, b)} == want_pos
         return ok and la.has_overlap(lb, match_strand=False) is bool(pa & pb)
 
     return fn
@@ -801,7 +804,7 @@ def obligations(tier):
                        lambda s0, l0, g1, l1, t0, m0, h1, m1: s0 == 1 and (l0 == 2 or l0 == 4) and -4 <= g1 and g1 <= 1 and g1 != -3 and (l1 == 1 or l1 == 3) and s0 + l0 + g1 >= 0
                        and 0 <= t0 and t0 <= 4 and (m0 == 1 or m0 == 3) and (h1 == -2 or h1 == 0 or h1 == 1) and (m1 == 0 or m1 == 2) and t0 + m0 + h1 >= 0,
                        budget=900, cost=120,
-                       desc="contains() / intersection() / has_overlap() when the blocks of either operand overlap, nest or share a start: contains is True exactly when "
+                       desc="contains() / intersection() / minus() / union() / has_overlap() when the blocks of either operand overlap, nest or share a start: position-set semantics; contains is True exactly when "
                             "every position of the other location is covered (a position covered by two blocks counts once)",
                        bounds="2 x 2 blocks: lengths {2,4} x {1,3} with the second starting 4..-1 before / at / after the first's end, other operand lengths {1,3} x {0,2} "
                               "starting at 0..4 with signed gap {-2,0,1} (realised)",
